@@ -184,6 +184,11 @@ def setup():
             continue
         raise SelfTestError('validation accepts out-of-domain term %r' % (bad,))
     validate('nat', good)
+    # The loaded theories are a large, immutable heap: keep the cyclic GC of the forked shard processes away from it
+    # (a full collection in a forked child touches every inherited object; measured 6x slowdown, mostly system time).
+    import gc
+    gc.collect()
+    gc.freeze()
 
 
 def use_theory(name):
@@ -1494,6 +1499,8 @@ def shards(tier):
 
 def run_shard(desc, seed, tier, H):
     from hypothesis import strategies as st
+    import gc
+    gc.freeze()
     kind = desc['kind']
 
     def body(case):
@@ -1507,7 +1514,7 @@ def run_shard(desc, seed, tier, H):
     if kind == 'pairs':
         th = desc['theory']
         seen = set()
-        idx = 0
+        idx = cnt = 0
         for F, pos, glabel, gcls, filler in enum_pairs(th):
             idx += 1
             if idx % desc['parts'] != desc['part']:
@@ -1517,7 +1524,8 @@ def run_shard(desc, seed, tier, H):
             if k in seen:
                 continue
             seen.add(k)
-            for uni in ((False, True) if (tier != 'quick' or idx % 3 == 0) else (False,)):
+            cnt += 1
+            for uni in ((False, True) if (tier != 'quick' or cnt % 3 == 0) else (False,)):
                 case = {'kind': 'term', 'theory': th, 't': j, 'unicode': uni, 'highlight': False, 'line_length': None}
                 body(case)
             H.classes['pair:outer=%s' % F.cls] += 1
